@@ -34,6 +34,11 @@ func c09Plan(tp *Tape, env *Env) *Plan {
 		cfg.Faults = tp.Int(1, 2, "nfaults") // failing calls: the error texts are part of the trace
 		cfg.WFault = 2
 	}
+	if tp.Chance(40, "withcommands") {
+		// commands whose arguments are expressions that draw random numbers (a raw handler that completes at once)
+		cfg.Handlers = []HandlerSpec{{Name: "c0", Shape: "raw_prefilled", Params: []string{"float64", "float64", "float64"}}}
+		cfg.WCommand, cfg.ArgExprPct = 3, 80
+	}
 	g := &gen{tp: tp, cfg: cfg}
 	prog := g.program()
 	g.ensureYieldingCycles(prog)
@@ -45,7 +50,7 @@ func c09Plan(tp *Tape, env *Env) *Plan {
 	for i := 0; i < ln; i++ {
 		seed += string(seedAlphabet[tp.Int(0, 35, "seedchar")])
 	}
-	w.Host = HostSpec{Storer: []string{"rec", "mem"}[tp.Int(0, 1, "storer")], Probes: true, Seed: seed, Overrides: tp.Chance(10, "hostoverrides")}
+	w.Host = HostSpec{Storer: []string{"rec", "mem"}[tp.Int(0, 1, "storer")], Probes: true, Seed: seed, Overrides: tp.Chance(10, "hostoverrides"), Handlers: cfg.Handlers}
 	ops := drawDynOps(tp, tp.Int(3, 24, "nops"), g.vars, 8, false)
 	if tp.Chance(30, "withrestores") && len(ops) > 3 {
 		// a snapshot and one or two restores on the way: what is drawn afterwards is still a function of the seed
@@ -101,7 +106,18 @@ func c09Trace(plan *Plan, bubble bool, midCall func(), st *Stats) (string, *Viol
 			if c09BetweenOps != nil && i > 0 {
 				c09BetweenOps()
 			}
+			ev0 := d.h.nEvents()
 			r := d.apply(&plan.Ops[i])
+			if evs := d.h.eventsFrom(ev0); len(evs) > 0 && plan.Ops[i].K == "next" {
+				// what the host saw during the call: function and command invocations with their argument values
+				var seen []string
+				for _, e := range evs {
+					if strings.HasPrefix(e, "fn ") || strings.HasPrefix(e, "cmd ") || strings.HasPrefix(e, "inv ") {
+						seen = append(seen, e)
+					}
+				}
+				fmt.Fprintf(&sb, "  host saw %v\n", normEvents(seen))
+			}
 			if r != nil {
 				fmt.Fprintf(&sb, "%d %s|%s|%s|%v|%s", i, r.Kind, r.Node, r.Text, r.Tags, r.Err)
 				for _, o := range r.Opts {
